@@ -315,6 +315,8 @@ def evaluated_first(header: ast.AST, load: ast.AST) -> bool:
 def header_of(st: ast.stmt) -> Optional[ast.AST]:
     if isinstance(st, ast.If):
         return st.test
+    if isinstance(st, ast.For) and isinstance(st.target, ast.Name):
+        return st.iter
     if isinstance(st, (ast.Return, ast.Expr)) and st.value is not None:
         return st.value
     if isinstance(st, ast.Assign) and all(isinstance(t, ast.Name) for t in st.targets):
@@ -917,7 +919,7 @@ def _simplify_defensive(fn: ast.AST) -> int:
                         lds = [n for n in ast.walk(hdr) if isinstance(n, ast.Name) and n.id == t and isinstance(n.ctx, ast.Load)]
                         if len(lds) == 1 and evaluated_first(hdr, lds[0]):
                             if hdr is lds[0]:
-                                for fld in ("test", "value"):
+                                for fld in ("test", "value", "iter"):
                                     if getattr(nxt, fld, None) is hdr:
                                         setattr(nxt, fld, st.value)
                             else:
@@ -1178,6 +1180,39 @@ def recover_loops(fn: ast.AST) -> int:
                     setattr(st, fld, block(getattr(st, fld)))
             for h in getattr(st, "handlers", []) or []:
                 h.body = block(h.body)
+            # L10  for x in (A if c else B): BODY   ->   if c: for x in A: BODY / else: for x in B: BODY
+            if isinstance(st, ast.For) and not st.orelse and isinstance(st.iter, ast.IfExp) and not own_jumps(st.body, (ast.Break,)) and sum(1 for _ in ast.walk(st)) <= 200:
+                def split(it):
+                    if isinstance(it, ast.IfExp):
+                        return [ast.copy_location(ast.If(test=it.test, body=split(it.body), orelse=split(it.orelse)), st)]
+                    return [ast.copy_location(ast.For(target=copy.deepcopy(st.target), iter=it, body=copy.deepcopy(st.body), orelse=[], type_comment=None), st)]
+                new = block(split(st.iter))
+                for x in new:
+                    ast.fix_missing_locations(x)
+                out.extend(new)
+                count[0] += 1
+                continue
+            # L12  for x in (): BODY   ->   nothing
+            if isinstance(st, ast.For) and not st.orelse and isinstance(st.iter, (ast.Tuple, ast.List)) and not st.iter.elts:
+                count[0] += 1
+                continue
+            # L11  for x in (E for y in T if c): BODY   ->   for y in T: if c: x = E ; BODY
+            if isinstance(st, ast.For) and not st.orelse and isinstance(st.iter, ast.GeneratorExp) and len(st.iter.generators) == 1 and not st.iter.generators[0].is_async \
+                    and isinstance(st.target, ast.Name):
+                g = st.iter.generators[0]
+                inner_names = {t.id for t in ast.walk(g.target) if isinstance(t, ast.Name)}
+                used_outside = any(isinstance(n, ast.Name) and n.id in inner_names and not any(n is y for y in ast.walk(st.iter)) for n in ast.walk(fn))
+                if not used_outside or (isinstance(st.iter.elt, ast.Name) and isinstance(g.target, ast.Name) and st.iter.elt.id == g.target.id and g.target.id == st.target.id):
+                    body = list(st.body)
+                    if not (isinstance(st.iter.elt, ast.Name) and st.iter.elt.id == st.target.id and isinstance(g.target, ast.Name) and g.target.id == st.target.id):
+                        body = [ast.copy_location(ast.Assign(targets=[ast.Name(id=st.target.id, ctx=ast.Store())], value=st.iter.elt), st)] + body
+                    if g.ifs:
+                        cond = g.ifs[0] if len(g.ifs) == 1 else ast.BoolOp(op=ast.And(), values=list(g.ifs))
+                        body = [ast.copy_location(ast.If(test=cond, body=body, orelse=[]), st)]
+                    new = ast.copy_location(ast.For(target=g.target, iter=g.iter, body=body, orelse=[], type_comment=None), st)
+                    ast.fix_missing_locations(new)
+                    st = new
+                    count[0] += 1
             # L1 while-index loop
             if isinstance(st, ast.While) and not st.orelse and isinstance(st.test, ast.Compare) and len(st.test.ops) == 1 and isinstance(st.test.ops[0], ast.Lt) \
                     and isinstance(st.test.left, ast.Name) and st.test.left.id not in esc:
